@@ -53,6 +53,48 @@ pub fn hexs(b: &[u8]) -> String {
     s
 }
 
+/// An input inside a replay file: hex, or for long inputs made of long runs a run-length list
+/// `{"rle": [[byte, count], ..]}` (a 16 MiB buffer of uniform records stays a few hundred KiB).
+pub fn enc_input(b: &[u8]) -> serde_json::Value {
+    if b.len() <= 200_000 {
+        return serde_json::Value::String(hexs(b));
+    }
+    let mut runs: Vec<(u8, u64)> = Vec::new();
+    for &x in b {
+        match runs.last_mut() {
+            Some((y, n)) if *y == x => *n += 1,
+            _ => runs.push((x, 1)),
+        }
+        if runs.len() > 400_000 {
+            return serde_json::Value::String(hexs(b));
+        }
+    }
+    serde_json::json!({"rle": runs.iter().map(|(x, n)| serde_json::json!([x, n])).collect::<Vec<_>>()})
+}
+
+pub fn dec_input(v: &serde_json::Value) -> Vec<u8> {
+    if let Some(s) = v.as_str() {
+        return unhex(s);
+    }
+    let mut b = Vec::new();
+    if let Some(runs) = v["rle"].as_array() {
+        for r in runs {
+            let (x, n) = (r[0].as_u64().unwrap_or(0) as u8, r[1].as_u64().unwrap_or(0) as usize);
+            b.resize(b.len() + n, x);
+        }
+    }
+    b
+}
+
+/// a violation key for an input: the bytes for short inputs, abbreviation + hash for long ones
+pub fn key_of(b: &[u8]) -> String {
+    if b.len() <= 256 {
+        hexs(b)
+    } else {
+        format!("{}#{:016x}", hexshort(b), fnv(0, b))
+    }
+}
+
 pub fn unhex(s: &str) -> Vec<u8> {
     let s: Vec<u8> = s.bytes().filter(|c| c.is_ascii_hexdigit()).collect();
     s.chunks(2)
